@@ -4,6 +4,10 @@
    Lists are newest first.  Executable definitions only. *)
 From Moss Require Export Stack.
 
+(* With CachePersisted the persisted base is kept as the clean section unless
+   it holds Merge operands (as the pinned commit had it, every base was kept,
+   and operands already folded into the lower level were applied twice —
+   see C08_refuted_pre_fix in Refuted.v). *)
 Record cfg := { cache_persisted : bool;      (* CollectionOptions.CachePersisted *)
                 has_ll : bool }.             (* LowerLevelUpdate != nil *)
 
@@ -148,7 +152,7 @@ Section WithMerge.
         | PUpdating, Some b =>
             if publish_ok b (ll s) l' then
               Some {| top := top s; mid := mid s; base := None;
-                      clean := if cache_persisted c then b else [];
+                      clean := if cache_persisted c && negb (existsb seg_has_merge b) then b else [];
                       ll := l'; merger := merger s; persister := PIdle;
                       cached := None; closed := false |}
             else None
